@@ -483,3 +483,118 @@ register(ShmAtExit())
 register(ShmStep("shm-step", ("C08",), with_bytes=False, strong_lock=False, n_quick=2, n_thorough=3, steps_thorough=2))
 register(ShmStep("shm-step-bytes", ("C09",), with_bytes=True, strong_lock=True, n_quick=2, n_thorough=3, steps_thorough=1))
 register(ShmLiveness())
+
+
+class ShmServer(Harness):
+    """C08 end to end: requests encoded with the real api.ser go through the real LocalServer.start dispatch; the answers
+    (decoded with the real api.deser) must agree with capacity accounting, including sizes and free space beyond 2^32."""
+
+    name = "shm-server-dispatch"
+    properties = ("C08",)
+    engine = "E1-crosshair"
+    rule = "one path = (capacity, a sequence of <=3 client requests with sizes from a boundary palette); non-trivial = >=2 requests"
+    assumptions = ["UDP socket replaced by an in-memory request list; sizes are palette picks (2^32-scale values included); no disk job completes during the sequence"]
+    outside = ["datagram loss, concurrent clients"]
+    SIZES = [1, 8, 2**32, 2**32 + 8]
+
+    def shards(self, tier):
+        return [{"cap": c, "len": n} for c in (8, 2**32 + 16) for n in (1, 2, 3)]
+
+    def budget(self, tier):
+        return 60.0
+
+    def bounds(self, tier):
+        return {"requests": "1..3", "capacity": [8, 2**32 + 16], "sizes": self.SIZES}
+
+    def functions(self):
+        import cascade.shm.server as server
+
+        return [server.LocalServer.start, server.LocalServer.receive, server.LocalServer.respond]
+
+    def body(self, ch, params):
+        import cascade.shm.api as api
+        import cascade.shm.server as server
+
+        with ch.untraced():
+            w = stubs_shm.reset_world()
+            w.now = 10**15
+            mgr = stubs_shm.make_manager(params["cap"])
+            srv = server.LocalServer.__new__(server.LocalServer)
+            srv.manager = mgr
+            inbox, outbox = [], []
+
+            class Sock:
+                def recvfrom(self, n):
+                    return inbox.pop(0), "client"
+
+                def sendto(self, b, addr):
+                    outbox.append(b)
+
+                def close(self):
+                    pass
+
+            srv.sock = Sock()
+            reqs = []
+            for i in range(params["len"]):
+                kind = ch.pick(5, f"req{i}")  # allocate k0, allocate k1, close k0 (writer), get k0, free-space
+                if kind in (0, 1):
+                    reqs.append(api.AllocateRequest(key=f"k{kind}", l=ch.choose(self.SIZES, f"size{i}"), deser_fun="d"))
+                elif kind == 2:
+                    reqs.append(api.CloseCallback(key="k0", rdid=""))
+                elif kind == 3:
+                    reqs.append(api.GetRequest(key="k0"))
+                else:
+                    reqs.append(api.FreeSpaceRequest())
+            reqs.append(api.FreeSpaceRequest())
+            for r in reqs:
+                inbox.append(api.ser(r))
+            inbox.append(api.ser(api.ShutdownCommand()))
+            try:
+                srv.start()
+            except Exception as e:
+                raise Violation("shm-server-loop-died", f"{type(e).__name__}: {e} while answering {reqs}")
+            answers = [api.deser(b) for b in outbox]
+            ch.note("requests", [repr(r)[:60] for r in reqs])
+            ch.note("nontrivial", len(reqs) >= 3)
+            if len(answers) != len(reqs) + 1:
+                raise Violation("request-without-answer", f"{len(answers)} answers for {len(reqs) + 1} requests")
+            # reference accounting
+            cap, free, sizes, status = params["cap"], params["cap"], {}, {}
+            for r, a in zip(reqs, answers):
+                if isinstance(r, api.AllocateRequest):
+                    if r.key in sizes:
+                        want = "conflict"
+                    elif r.l > cap:
+                        want = "capacity exceeded"
+                    elif r.l > free:
+                        want = "wait"
+                    else:
+                        want = ""
+                        free -= r.l
+                        sizes[r.key] = r.l
+                        status[r.key] = "created"
+                        w.segs[mgr.datasets[r.key].shmid] = stubs_shm.Buf(r.l)  # the client creates its segment
+                    if not isinstance(a, api.AllocateResponse) or a.error != want or bool(a.shmid) != (want == ""):
+                        raise Violation("allocate-answer-wrong", f"{r!r} -> {a!r}, expected error {want!r} (free {free}, capacity {cap})")
+                elif isinstance(r, api.CloseCallback):
+                    if status.get(r.key) == "created":
+                        status[r.key] = "in_memory"
+                        if not isinstance(a, api.OkResponse) or a.error:
+                            raise Violation("close-answer-wrong", repr(a))
+                    elif not isinstance(a, api.OkResponse) or not a.error:
+                        raise Violation("invalid-close-not-refused", repr(a))
+                elif isinstance(r, api.GetRequest):
+                    if status.get(r.key) == "in_memory":
+                        if not isinstance(a, api.GetResponse) or a.error or a.l != sizes[r.key] or a.deser_fun != "d":
+                            raise Violation("get-answer-wrong", f"{a!r} for size {sizes[r.key]}")
+                    elif status.get(r.key) == "created":
+                        if not isinstance(a, api.GetResponse) or a.error != "wait":
+                            raise Violation("get-before-write-finished-not-wait", repr(a))
+                    elif not getattr(a, "error", ""):
+                        raise Violation("get-unknown-key-no-error", repr(a))
+                elif isinstance(r, api.FreeSpaceRequest):
+                    if not isinstance(a, api.FreeSpaceResponse) or a.free_space != free:
+                        raise Violation("reported-free-space-wrong", f"{a!r}, capacity {cap} minus resident {cap - free} is {free}")
+
+
+register(ShmServer())
